@@ -295,11 +295,6 @@ pub fn read_xt_output(b: &[u8]) -> Result<Vec<Val>, String> {
         }
         out.push(d.val);
     }
-    // Each document must start with the literal marker line xt documents.
-    let marker_lines = b.split(|&c| c == b'\n').filter(|l| *l == b"---").count();
-    if marker_lines != out.len() {
-        return Err(format!("yaml reader: {} '---' marker lines for {} documents", marker_lines, out.len()));
-    }
     Ok(out)
 }
 
